@@ -7,12 +7,14 @@ KEYS = 'Mapped_begin(self)'
 
 FAMILY = Family(
     'mapped',
-    typemap={'K': 'K', 'ApproxPos': 'ApproxPos'},
-    classes=[ClassDesc('Mapped', HPP, 'MappedPGMIndex', base_struct='PGMBase', field_types={'data': 'Ptr<K>'},
+    typemap={'K': 'K', 'ApproxPos': 'ApproxPos', 'Segment': 'Segment', 'Floating': 'Floating'},
+    classes=[ClassDesc('Segment', 'include/pgm/pgm_index.hpp', 'Segment', packed=True), ClassDesc('Mapped', HPP, 'MappedPGMIndex', base_struct='PGMBase', field_types={'data': 'Ptr<K>'},
                        methods={'begin': 'Mapped_begin', 'end': 'Mapped_end', 'size': 'Mapped_size', 'search': 'Mapped_search',
                                 'lower_bound': 'Mapped_lower_bound', 'upper_bound': 'Mapped_upper_bound', 'count': 'Mapped_count',
-                                'contains': 'Mapped_contains'})],
-    extra_structs={'ApproxPos': {'pos': 'size_t', 'lo': 'size_t', 'hi': 'size_t'}, 'PGMBase': {'n': 'size_t', 'first_key': 'K'}},
+                                'contains': 'Mapped_contains', 'write_member': 'pgmv_write_member', 'write_container': 'pgmv_write_container', 'map_file': 'pgmv_map_file', 'read_member': 'pgmv_read_member', 'read_container': 'pgmv_read_container'})],
+    extra_structs={'ApproxPos': {'pos': 'size_t', 'lo': 'size_t', 'hi': 'size_t'}, 'PGMBase': {'n': 'size_t', 'first_key': 'K', 'segments': 'Vec<Segment>', 'levels_offsets': 'Vec<size_t>'}, 'FStream': {'pos': 'size_t'}},
+    funcs={'std::fstream': FuncInfo('pgmv_fstream_open', 'FStream')},
+    struct_methods={('FStream', 'seekp'): FuncInfo('pgmv_fstream_seekp', 'void')},
     typenames={'K'},
 )
 FUNCS = {}
@@ -35,8 +37,26 @@ F('Mapped_count', HPP, 'count', 'size_t Mapped_count(const Mapped *self, K key)'
   must_fire=('std_distance',))
 F('Mapped_contains', HPP, 'contains', '_Bool Mapped_contains(const Mapped *self, K key)', cls='MappedPGMIndex', self_cls='Mapped', ret='bool', params={'key': 'K'},
   must_fire=('std_binary_search',))
+F('Mapped_serialize_and_map', HPP, 'serialize_and_map', 'void Mapped_serialize_and_map(Mapped *self, const K *keys, size_t first, size_t last, const char *out_filename)',
+  cls='MappedPGMIndex', self_cls='Mapped', ret='void', params={'first': 'It<K>', 'last': 'It<K>', 'out_filename': 'Ptr<char>'}, bases={'first': 'keys', 'last': 'keys'},
+  consts={'std::ios::out': ('PGMV_IOS_OUT', 'int'), 'std::ios::binary': ('PGMV_IOS_BINARY', 'int')})
+FUNCS['pgmv_write_member'] = FuncDesc('pgmv_write_member', HPP, 'write_member', 'size_t pgmv_write_member(uint64_t value, size_t size, FStream *out)', ret='size_t', static=True,
+                                      template='pgmv_write_member((uint64_t)(%a0), sizeof(%a0), %p1)')
+FUNCS['pgmv_write_container'] = FuncDesc('pgmv_write_container', HPP, 'write_container', 'size_t pgmv_write_container(size_t count, size_t elem_size, FStream *out)', ret='size_t', static=True,
+                                         template='pgmv_write_container(%a0.size, sizeof(*%a0.data), %p1)')
+F('Mapped_load_ctor', HPP, 'MappedPGMIndex', 'void Mapped_load_ctor(Mapped *self, const char *in_filename)', cls='MappedPGMIndex', self_cls='Mapped', ordinal=2, ret='void',
+  params={'in_filename': 'Ptr<char>'}, ctor_init={'base': 'PGMBase_value_init'}, must_fire=('ctor_init_list',),
+  consts={'std::ios::in': ('PGMV_IOS_IN', 'int'), 'std::ios::binary': ('PGMV_IOS_BINARY', 'int')})
+FUNCS['PGMBase_value_init'] = FuncDesc('PGMBase_value_init', HPP, 'base', 'void PGMBase_value_init(Mapped *self)', ret='void')
+FUNCS['pgmv_read_member'] = FuncDesc('pgmv_read_member', HPP, 'read_member', 'void pgmv_read_member(void *dst, size_t size, FStream *in)', ret='void', static=True,
+                                     template='pgmv_read_member(&(%a0), sizeof(%a0), %p1)')
+FUNCS['pgmv_read_container'] = FuncDesc('pgmv_read_container', HPP, 'read_container', 'void pgmv_read_container(size_t *count, size_t elem_size, FStream *in)', ret='void', static=True,
+                                        template='pgmv_read_container(&%a0.size, sizeof(*%a0.data), %p1)')
+FUNCS['pgmv_map_file'] = FuncDesc('pgmv_map_file', HPP, 'map_file', 'K *pgmv_map_file(const char *filename, size_t file_bytes)', ret='Ptr<K>', static=True)
+FUNCS['pgmv_fstream_open'] = FuncDesc('pgmv_fstream_open', HPP, 'fstream', 'FStream pgmv_fstream_open(const char *filename, int mode)', ret='FStream')
+FUNCS['pgmv_fstream_seekp'] = FuncDesc('pgmv_fstream_seekp', HPP, 'seekp', 'void pgmv_fstream_seekp(FStream *out, size_t pos)', ret='void')
 FUNCS['Mapped_search'] = FuncDesc('Mapped_search', HPP, 'search', 'ApproxPos Mapped_search(const Mapped *self, K key)', ret='ApproxPos')
 
-PRELUDE = 'PGMV_DEF_MINMAX(K)\ntypedef struct { size_t pos; size_t lo; size_t hi; } ApproxPos;\n'
-LAYOUT = ['struct:Mapped']
+PRELUDE = 'PGMV_DEF_MINMAX(K)\ntypedef struct { size_t pos; size_t lo; size_t hi; } ApproxPos;\ntypedef struct { size_t pos; } FStream;   /* std::fstream: only the stream position is modelled [A] */\n#define PGMV_IOS_OUT 1\n#define PGMV_IOS_BINARY 2\n#define PGMV_IOS_IN 4\n'
+LAYOUT = ['struct:Segment', 'vec:Segment', 'vec:size_t', 'struct:Mapped']
 MACROS = []
